@@ -21,7 +21,7 @@ type leaf struct {
 	kind  string // num | bool | null | undef | str | obj
 	rep   string // representation requested: "", native, imported, imported-scanned
 	core  bool   // member of the reduced partner pool used for the deep levels of the quick tier
-	mid   bool   // member of the partner pool of binary operations at depth 1 (all non-strings + representative strings in every representation)
+	mid   bool   // (informational) representative content kept in every string representation
 	fresh bool   // make a new value for every evaluation
 	mk    func(w *worker) goja.Value
 	js    string // JS source text of the value if it can be written as a literal expression ("" = cannot)
